@@ -2,6 +2,7 @@ package c03
 
 import (
 	"bytes"
+	"encoding/json"
 	"fmt"
 	"hash/fnv"
 	"math/rand/v2"
@@ -84,8 +85,8 @@ func planOf(tier string) plan {
 	p := plan{probes: len(probeList), chars: len(charPlan(tier)), wire: len(wireFixed) + 300, random: 24000, gridEvery: 1500}
 	if tier == "thorough" {
 		p.wire = len(wireFixed) + 3000
-		p.random = 600000
-		p.gridEvery = 2000
+		p.random = 400000
+		p.gridEvery = 1300
 	}
 	return p
 }
@@ -111,11 +112,21 @@ func gen(r *rand.Rand, i int, tier string) Case {
 		if i < len(wireFixed) {
 			return Case{Kind: "wire", Obj: wireFixed[i].clone()}
 		}
-		return Case{Kind: "wire", Obj: randWire(r, 0), Dirty: ""}
+		if r.IntN(100) < 15 {
+			return Case{Kind: "wire", Obj: randWire(r, 0, false), Dirty: "wire-raw-string"}
+		}
+		return Case{Kind: "wire", Obj: randWire(r, 0, true)}
 	}
 	i -= p.wire
 	if i%p.gridEvery == 7 {
-		g := genOpts{clean: true, maxDepth: 3, maxWidth: 5}
+		// full grid: the object must be clean under radix and under escape mode
+		g := genOpts{clean: true, radix: true, escape: true, maxDepth: 3, maxWidth: 5}
+		kind := "grid"
+		if (i/p.gridEvery)%3 == 2 {
+			// arrays, ratios and all floats over the part of the grid where they are not on the avoid list
+			g.radix, g.escape = false, false
+			kind = "grid-plain"
+		}
 		var o *O
 		for {
 			o = randObj(r, g, 0)
@@ -123,7 +134,7 @@ func gen(r *rand.Rand, i int, tier string) Case {
 				break
 			}
 		}
-		return Case{Kind: "grid", Obj: o}
+		return Case{Kind: kind, Obj: o}
 	}
 	return genPair(r)
 }
@@ -131,27 +142,22 @@ func gen(r *rand.Rand, i int, tier string) Case {
 func genPair(r *rand.Rand) Case {
 	c := defaultCfg()
 	g := genOpts{clean: true, maxDepth: 4, maxWidth: 6}
-	dirty := ""
-	sel := r.IntN(100)
-	switch {
-	case sel < 15:
-		dirty = "yes"
+	dirty := false
+	if r.IntN(100) < 12 {
+		dirty = true
 		g.clean = false
 	}
-	if !g.numeric {
-		switch r.IntN(4) {
-		case 0:
-		default:
-			c.Radix = true
-			c.Base = 2 + r.IntN(35)
-			if r.IntN(6) == 0 {
-				c.Base = []int{2, 8, 10, 16, 36}[r.IntN(5)]
-			}
+	if r.IntN(4) != 0 {
+		c.Radix = true
+		c.Base = 2 + r.IntN(35)
+		if r.IntN(6) == 0 {
+			c.Base = []int{2, 8, 10, 16, 36}[r.IntN(5)]
 		}
 	}
 	if r.IntN(5) == 0 {
 		c.Mode = "escape"
 	}
+	g.radix, g.escape = c.Radix, c.Mode == "escape"
 	c.Case = []string{"downcase", "upcase", "capitalize"}[r.IntN(3)]
 	if r.IntN(3) != 0 {
 		c.Pretty = true
@@ -168,7 +174,7 @@ func genPair(r *rand.Rand) Case {
 	} else {
 		c.Margin = 1 + r.IntN(200)
 	}
-	c.Via = []string{"append", "append", "keys", "vars"}[r.IntN(4)]
+	c.Via = []string{"append", "append", "append", "keys", "keys", "vars", "vars", "global"}[r.IntN(8)]
 	if r.IntN(5) == 0 {
 		c.Read = "rfs"
 	}
@@ -179,25 +185,31 @@ func genPair(r *rand.Rand) Case {
 			break
 		}
 	}
-	if dirty != "" {
-		dirty = plantedDirt(o)
+	d := ""
+	if dirty {
+		d = plantedDirt(o, g)
+		if d == "" {
+			d = "none"
+		}
 	}
-	return Case{Kind: "pair", Obj: o, Cfg: &c, Dirty: dirty}
+	return Case{Kind: "pair", Obj: o, Cfg: &c, Dirty: d}
 }
 
 // plantedDirt names the avoid-set constructs present in o.
-func plantedDirt(o *O) string {
+func plantedDirt(o *O, g genOpts) string {
 	set := map[string]bool{}
 	var walk func(o *O)
 	walk = func(o *O) {
 		if !o.composite() {
-			if d := dirtyLeaf(o); d != "" {
+			if d := dirtyLeaf(o, g); d != "" {
 				set[d] = true
 			}
 		}
 		if o.K == "arr" {
 			if len(o.D) == 0 {
 				set["arr-rank0"] = true
+			} else if g.radix && avoidArrayRadix {
+				set["arr-rank-with-radix"] = true
 			}
 			for _, d := range o.D {
 				if d == 0 {
@@ -256,9 +268,17 @@ func initWire() {
 		e(k("presentation-start"), i(1), k("repl-result")),
 		e(k("return"), e(k("ok"), e(leaf("df", "1.5"), leaf("ratio", "1/2"), leaf("chr", "97"))), i(9)),
 	}
+	// every ASCII code point inside the text of a :write-string message
+	for c := rune(0); c < 128; c++ {
+		wireFixed = append(wireFixed, e(k("write-string"), str("a"+string(c)+"b")))
+	}
+	initPools()
+	for _, c := range probeRunes {
+		wireFixed = append(wireFixed, e(k("write-string"), str("a"+string(c)+"b")))
+	}
 }
 
-func randWire(r *rand.Rand, depth int) *O {
+func randWire(r *rand.Rand, depth int, clean bool) *O {
 	initPools()
 	initInts()
 	initFloats()
@@ -292,6 +312,9 @@ func randWire(r *rand.Rand, depth int) *O {
 				default:
 					rs[i] = rune('a' + r.IntN(26))
 				}
+				if clean && dirtyStringRune(rs[i], genOpts{escape: true}) {
+					rs[i] = ' '
+				}
 			}
 			return leaf("str", string(rs))
 		case 6:
@@ -310,7 +333,7 @@ func randWire(r *rand.Rand, depth int) *O {
 	}
 	n := 1 + r.IntN(5)
 	for i := 0; i < n; i++ {
-		o.E = append(o.E, randWire(r, depth+1))
+		o.E = append(o.E, randWire(r, depth+1, clean))
 	}
 	return o
 }
@@ -357,22 +380,25 @@ func judgeWire(o *O, st *stats) *failure {
 // ---- execution ----
 
 type runner struct {
-	x        *fw.Ctx
-	st       stats
-	min      *minimiser
-	culprits map[string]*O // leaves already found responsible for a failure in this case
-	order    []string
-	sigs     map[string]int
-	nmin     int
+	x    *fw.Ctx
+	st   stats
+	min  *minimiser
+	memo map[string][]string // leaf key + cfg -> signatures (nil: the leaf holds in canonical contexts)
+	sigs map[string]int
+	nmin int
+	// structs: minimal failing structures found so far in this case
+	structs []*O
+	// clean: the case comes from a stream that avoids the known findings
+	clean bool
 }
 
 func newRunner(x *fw.Ctx) *runner {
-	r := &runner{x: x, culprits: map[string]*O{}, sigs: map[string]int{}}
+	r := &runner{x: x, memo: map[string][]string{}, sigs: map[string]int{}}
 	r.min = &minimiser{st: &r.st, memo: map[string]string{}}
 	return r
 }
 
-const maxMinPerCase = 60
+const maxMinPerCase = 40
 
 // check judges one pair and reports a violation under its signature.
 func (r *runner) check(o *O, c Cfg) bool {
@@ -380,21 +406,21 @@ func (r *runner) check(o *O, c Cfg) bool {
 	if f == nil {
 		return true
 	}
-	r.explain(o, c, f, 0)
+	r.explain(o, c, f)
 	return false
 }
 
 // canon finds the canonical context in which leaf l fails under c: alone, or
 // as the only element of a list.
-func (r *runner) canon(l *O, c Cfg) (co *O, ctx string, kind string) {
-	if k := r.min.kindOf(l, c); k != "" {
-		return l, "top", k
+func (r *runner) canon(l *O, c Cfg) (co *O, ctx string) {
+	if r.min.kindOf(l, c) != "" {
+		return l, "top"
 	}
 	lst := &O{K: "list", E: []*O{l}}
-	if k := r.min.kindOf(lst, c); k != "" {
-		return lst, "list", k
+	if r.min.kindOf(lst, c) != "" {
+		return lst, "list"
 	}
-	return nil, "", ""
+	return nil, ""
 }
 
 func leavesOf(o *O, fn func(l *O)) {
@@ -409,76 +435,44 @@ func leavesOf(o *O, fn func(l *O)) {
 	}
 }
 
-func isFiller(l *O) bool { return l.K == "int" && l.V == "1" }
-
-// neutralise replaces every occurrence of leaf l in o by a filler.
-func neutralise(o *O, l *O) *O {
+// neutralise replaces every occurrence of the leaves in set by a filler.
+func neutralise(o *O, set map[string]bool) *O {
 	if !o.composite() {
-		if o.K == l.K && o.V == l.V {
+		if set[o.K+"\x00"+o.V] {
 			return leaf("int", "1")
 		}
 		return o.clone()
 	}
 	c := &O{K: o.K, V: o.V, D: o.D, E: []*O{}}
 	for _, e := range o.E {
-		c.E = append(c.E, neutralise(e, l))
+		c.E = append(c.E, neutralise(e, set))
 	}
 	if o.T != nil {
-		c.T = neutralise(o.T, l)
+		c.T = neutralise(o.T, set)
 	}
 	return c
 }
 
-// explain computes the signature(s) of a failing pair: it finds the leaf (or,
-// failing that, the smallest structure) responsible, re-tests it in a
-// canonical context, drops every configuration dimension the failure does
-// not depend on, and reports the violation under that signature.
-func (r *runner) explain(o *O, c Cfg, f *failure, depth int) {
-	var culprit *O
-	leavesOf(o, func(l *O) {
-		if culprit != nil {
-			return
-		}
-		if known, ok := r.culprits[l.K+"\x00"+l.V]; ok {
-			if co, _, _ := r.canon(known, c); co != nil {
-				culprit = known
-			}
-		}
-	})
-	var mo *O
-	if culprit == nil {
-		if maxMinPerCase <= r.nmin {
-			r.x.Cover("violations-not-minimised")
-			return
-		}
-		r.nmin++
-		r.min.calls = 0
-		mo = r.min.minimiseObj(o, c, f.kind)
-		r.st.minimised++
-		var non []*O
-		leavesOf(mo, func(l *O) {
-			if !isFiller(l) {
-				non = append(non, l)
-			}
-		})
-		if len(non) == 1 || (len(non) == 2 && non[0].key() == non[1].key()) {
-			if co, _, _ := r.canon(non[0], c); co != nil {
-				culprit = non[0]
-				r.culprits[culprit.K+"\x00"+culprit.V] = culprit
-			}
+// containsShape tells whether o has a sub-object of the same kind (and rank) as m.
+func containsShape(o *O, m *O) bool {
+	if o.K == m.K && len(o.D) == len(m.D) && (o.T != nil) == (m.T != nil) {
+		return true
+	}
+	for _, e := range o.E {
+		if containsShape(e, m) {
+			return true
 		}
 	}
-	var (
-		co   *O
-		ctx  string
-		kind string
-	)
-	if culprit != nil {
-		co, ctx, kind = r.canon(culprit, c)
-	} else {
-		co, ctx, kind = mo, "as-is", f.kind
-	}
-	mc := r.min.minimiseCfg(co, c, kind)
+	return o.T != nil && containsShape(o.T, m)
+}
+
+func plainRune(r rune) bool { return 'a' <= r && r <= 'z' || '0' <= r && r <= '9' }
+
+// report files a violation under the signature computed from the minimal
+// failing pair (co under c).
+func (r *runner) report(co *O, ctx string, c Cfg, orig *failure) string {
+	mc := r.min.minimiseCfg(co, c)
+	kind := r.min.kindOf(co, mc)
 	mode := mc.Mode
 	if mc.Via == "wire" {
 		mode = "-"
@@ -493,25 +487,167 @@ func (r *runner) explain(o *O, c Cfg, f *failure, depth int) {
 			mode = "any"
 		}
 	}
-	sig := fmt.Sprintf("fail=%s mode=%s cfg=%s ctx=%s obj=%s", kind, mode, r.min.cfgPart(co, mc, kind), ctx, co.shapeIn(ctx))
+	var sig string
+	switch ctx {
+	case "top":
+		sig = fmt.Sprintf("obj=%s cfg=%s ctx=top mode=%s class=%s fail=%s", co.leafKind(), r.min.cfgPart(co, mc), mode, co.leafClass(), kind)
+	case "list":
+		sig = fmt.Sprintf("obj=%s cfg=%s ctx=list mode=%s class=%s fail=%s", co.E[0].leafKind(), r.min.cfgPart(co, mc), mode, co.E[0].leafClass(), kind)
+	default:
+		sig = fmt.Sprintf("obj=struct cfg=%s ctx=as-is mode=%s class=%s fail=%s", r.min.cfgPart(co, mc), mode, co.shape(), kind)
+	}
 	r.sigs[sig]++
 	if r.sigs[sig] == 1 {
-		mmsg := ""
+		msg := orig.msg
 		if mf := judge(co, mc, nil); mf != nil {
-			mmsg = "\n   minimal: " + mf.msg
+			w := Case{Kind: "pair", Obj: co, Cfg: &mc}
+			if mc.Via == "wire" {
+				w = Case{Kind: "wire", Obj: co}
+			}
+			wj, _ := json.Marshal(w)
+			msg = mf.msg + "\n   seen in: " + trunc(orig.msg, 1500) + "\n   witness: " + string(wj)
 		}
-		r.x.Fail(sig, "%s%s", f.msg, mmsg)
+		r.x.Fail(sig, "%s", msg)
 	}
-	// a second, different cause in the same object?
-	if culprit != nil && depth < 4 {
-		o2 := neutralise(o, culprit)
-		if f2 := judge(o2, c, &r.st); f2 != nil {
-			r.explain(o2, c, f2, depth+1)
+	return sig
+}
+
+// explainLeaf reports every way leaf l fails under c in a canonical context
+// and tells whether it does.
+func (r *runner) explainLeaf(l *O, c Cfg, orig *failure) bool {
+	key := l.K + "\x00" + l.V + "\x00" + c.String()
+	if sigs, ok := r.memo[key]; ok {
+		for _, s := range sigs {
+			r.sigs[s]++
+		}
+		return 0 < len(sigs)
+	}
+	var sigs []string
+	cur := l
+	for round := 0; round < 4 && cur != nil; round++ {
+		co, ctx := r.canon(cur, c)
+		if co == nil {
+			break
+		}
+		r.min.calls = 0
+		mo := r.min.minimiseObj(co, c)
+		r.st.minimised++
+		mctx := ctx
+		if !mo.composite() {
+			mctx = "top"
+		} else if !(mo.K == "list" && len(mo.E) == 1 && mo.T == nil && !mo.E[0].composite()) {
+			mctx = "as-is"
+		}
+		sigs = append(sigs, r.report(mo, mctx, c, orig))
+		// a second cause in the same text? remove the code points of the minimal form and retry
+		next := (*O)(nil)
+		ml := mo
+		if mctx == "list" {
+			ml = mo.E[0]
+		}
+		if mctx != "as-is" && (cur.K == "str" || cur.K == "sym" || cur.K == "kw") && ml.K == cur.K && ml.V != "" {
+			drop := map[rune]bool{}
+			for _, q := range ml.V {
+				if !plainRune(q) {
+					drop[q] = true
+				}
+			}
+			var keep []rune
+			for _, q := range cur.V {
+				if !drop[q] {
+					keep = append(keep, q)
+				}
+			}
+			for cur.K == "sym" && 0 < len(keep) && keep[0] == ':' {
+				keep = keep[1:] // a leading colon would make a keyword of it
+			}
+			if 0 < len(drop) && 0 < len(keep) && len(keep) < len([]rune(cur.V)) {
+				next = leaf(cur.K, string(keep))
+			}
+		}
+		cur = next
+	}
+	r.memo[key] = sigs
+	return 0 < len(sigs)
+}
+
+// explain computes the signature(s) of a failing pair: every leaf that fails
+// by itself (alone or in a one-element list) is minimised and reported under
+// its own signature; if the object still fails with those leaves replaced by
+// fillers, the smallest failing structure is reported.
+func (r *runner) explain(o *O, c Cfg, f *failure) {
+	if r.min.kindOf(o, c) == "" {
+		// the same pair holds when it is judged a second time: the failure depends on state outside the pair
+		sig := "obj=any cfg=any ctx=any mode=any class=not-reproducible fail=" + f.kind
+		r.sigs[sig]++
+		if r.sigs[sig] == 1 {
+			r.x.Fail(sig, "%s\n   (the same pair held when judged again in the same process)", f.msg)
+		}
+		return
+	}
+	bad := map[string]bool{}
+	seen := map[string]bool{}
+	leavesOf(o, func(l *O) {
+		k := l.K + "\x00" + l.V
+		if seen[k] {
+			return
+		}
+		seen[k] = true
+		if r.explainLeaf(l, c, f) {
+			bad[k] = true
+		}
+	})
+	rest := o
+	if 0 < len(bad) {
+		rest = neutralise(o, bad)
+		if r.min.kindOf(rest, c) == "" {
+			return
 		}
 	}
+	if !rest.composite() {
+		return
+	}
+	skey := "struct\x00" + rest.key() + c.String()
+	if sigs, ok := r.memo[skey]; ok {
+		for _, s := range sigs {
+			r.sigs[s]++
+		}
+		return
+	}
+	// a structure already found minimal in this case that also fails under c explains this failure too
+	var mo *O
+	for _, prev := range r.structs {
+		if containsShape(rest, prev) && r.min.kindOf(prev, c) != "" {
+			mo = prev
+			break
+		}
+	}
+	if mo == nil {
+		if maxMinPerCase <= r.nmin {
+			r.x.Cover("violations-not-minimised")
+			return
+		}
+		r.nmin++
+		r.min.calls = 0
+		mo = r.min.minimiseObj(rest, c)
+		r.st.minimised++
+		r.structs = append(r.structs, mo)
+	}
+	ctx := "as-is"
+	if !mo.composite() {
+		ctx = "top"
+	} else if mo.K == "list" && len(mo.E) == 1 && mo.T == nil && !mo.E[0].composite() {
+		ctx = "list"
+	}
+	r.memo[skey] = []string{r.report(mo, ctx, c, f)}
 }
 
 func (r *runner) finish() {
+	if r.clean {
+		for sig, n := range r.sigs {
+			r.x.CoverN("violation-in-clean-stream:"+sig, n)
+		}
+	}
 	r.x.CoverN("pairs-judged", r.st.pairs)
 	r.x.CoverN("pretty-vs-flat-compared", r.st.prettyPairs)
 	r.x.CoverN("pretty-text-differs-from-flat", r.st.prettyDiffers)
@@ -600,10 +736,11 @@ func exec(x *fw.Ctx, c Case) {
 		if c.Dirty != "" {
 			x.Cover("dirty-stream")
 			for _, d := range strings.Split(c.Dirty, ",") {
-				x.Cover("planted:" + d)
+				x.Cover("avoided-in-clean-stream:" + d)
 			}
 		} else {
 			x.Cover("clean-stream")
+			r.clean = true
 		}
 		cfg := *c.Cfg
 		held := r.check(c.Obj, cfg)
@@ -624,11 +761,16 @@ func exec(x *fw.Ctx, c Case) {
 			}
 		}
 		x.Observe(obs)
-	case "grid":
+	case "grid", "grid-plain":
+		r.clean = true
 		coverObj(x, c.Obj)
 		n, ok := 0, 0
-		for _, mode := range []string{"readably", "escape"} {
-			for base := 2; base <= 37; base++ {
+		modes, first := []string{"readably", "escape"}, 2
+		if c.Kind == "grid-plain" {
+			modes, first = []string{"readably"}, 37
+		}
+		for _, mode := range modes {
+			for base := first; base <= 37; base++ {
 				for _, cs := range []string{"downcase", "upcase", "capitalize"} {
 					cfg := defaultCfg()
 					cfg.Mode, cfg.Case, cfg.Base, cfg.Radix = mode, cs, base, true
@@ -685,6 +827,12 @@ func exec(x *fw.Ctx, c Case) {
 		x.Observe(map[string]any{"range": fmt.Sprintf("U+%04X..U+%04X step %d", c.From, c.To-1, stride), "code-points": n, "held": ok})
 	case "wire":
 		coverObj(x, c.Obj)
+		if c.Dirty != "" {
+			x.Cover("dirty-stream")
+			x.Cover("avoided-in-clean-stream:" + c.Dirty)
+		} else if len(wireFixed) <= x.Index-planOf(x.Tier).probes-planOf(x.Tier).chars {
+			r.clean = true
+		}
 		cfg := defaultCfg()
 		cfg.Via = "wire"
 		held := r.check(c.Obj, cfg)
@@ -701,7 +849,11 @@ func init() {
 			"chars (code point range: each scalar value as character and inside a string) | wire (swank message) | " +
 			"pair (seeded object of depth <= 4, width <= 6 built as Go values x seeded printer configuration x print entry point) | " +
 			"grid (seeded object x the full grid base 2..36+radix and 10 plain x 3 cases x flat and pretty at every margin 1..200 x readably/escape); " +
-			"distinct = distinct case JSON; non-trivial = at least one print->read pair was judged",
+			"distinct = distinct case JSON; non-trivial = at least one print->read pair was judged. " +
+			"Avoid set: 88% of the pair cases, all grid cases and 85% of the seeded wire messages (the clean stream) leave out the constructs listed as open findings " +
+			"(symbol and keyword names outside letters, digits and -*+<>=_$%^~. ; characters the reader rejects after #\\; long floats whose shortest text is not exact at the precision the reader derives; " +
+			"rank-0 and zero-extent arrays; under *print-radix* t ratios and arrays of rank >= 2; under *print-readably* nil strings holding \" \\ or control characters and every float but fractional doubles); " +
+			"the remaining cases (the dirty stream) and the probe block generate them all",
 		N:        nCases,
 		Gen:      gen,
 		Exec:     exec,
